@@ -691,6 +691,21 @@ def run_scenario(ctx, case):
         impl = {"occs": len(got), "states": sorted(r2[1].keys()), "by_role_type": sorted(x.obstacle_id for x in r3[1])}
         mod = {"occs": len(m["occs"]), "states": sorted(i for i, _ in m["states"]), "by_role_type": sorted(m["by_role_type"])}
         ctx.compare(sub, impl, mod, "Scenario queries vs CR.Occ.occupanciesAt/statesAt/byRoleType")
+        # position filter: the model decides which obstacles have an occupancy and applies the closed-interval test to the
+        # centre the real answer offers (a parameter of the model); the ORDER of the list is compared too
+        pobs = []
+        for o in case["obs"]:
+            ob = objs[o["id"]]
+            if o["kind"] == "static":
+                c = o["init"]["pos"]
+            elif o["kind"] == "environment":
+                c = getattr(ob.obstacle_shape, "center", None)
+            else:
+                c = getattr(per_occ[o["id"]].shape, "center", None) if per_occ[o["id"]] is not None else None
+            pobs.append({"id": o["id"], "obst": model_obst(o), "c": None if c is None else [rat(float(c[0])), rat(float(c[1]))]})
+        mp = ctx.driver.ask("C04", "by_position", {"obs": pobs, "t": t, "roles": list(case["roles"]),
+                                                   "ix": [rat(x0), rat(x1)], "iy": [rat(y0), rat(y1)]})
+        ctx.compare(sub, [x.obstacle_id for x in r4[1]], mp, "Scenario.obstacles_by_position_intervals vs CR.Occ.byPosition")
 
 
 def run_case(ctx, case):
